@@ -747,6 +747,8 @@ def selftest():
                     env["GOMAXPROCS"] = str(g)
                     if race:
                         env["GORACE"] = "halt_on_error=1 exitcode=66"
+                    if i >= 3:
+                        env["GOGC"] = "1"  # collect all the time: nothing may hinge on addresses or on when memory is reused
                     jobs.append(([binary, "-test.run", "TestSim", "-test.timeout", "0", "-sim.selftest", str(n), "-sim.seed", "77",
                                   "-sim.hashlog", os.path.join(tmp, "h_%s_%d_%d" % (eng, race, i))], env, os.path.join(tmp, "st_%s_%d_%d" % (eng, race, i))))
                 rcs = run_procs(jobs, 1800)
@@ -759,7 +761,7 @@ def selftest():
                 # processes with equal GOMAXPROCS must agree; for L1 all must agree (limits are pinned)
                 same = all(l == logs[0] for l in logs) if eng == "l1" else (logs[0] == logs[3] and logs[1] == logs[4] and logs[2] == logs[5])
                 same = same and len(logs[0].splitlines()) == n
-                log("selftest %s race=%s: rcs=%s, %d runs x 6 processes (GOMAXPROCS 1,4,16), each run executed twice from its seed and once from its recorded choices; trace logs identical=%s" % (eng, race, rcs, n, same))
+                log("selftest %s race=%s: rcs=%s, %d runs x 6 processes (GOMAXPROCS 1,4,16; three of them with GOGC=1), each run executed twice from its seed and once from its recorded choices; trace logs identical=%s" % (eng, race, rcs, n, same))
                 if not same or any(rcs):
                     ok = False
                     for i in range(6):
